@@ -31,10 +31,16 @@ import common
 import gen_oal_action as G
 import oal_sexp
 import prop_C05 as P5
+import flat_pop          # FLAT: dump of the real population in the form of the Lean flat population model
 from sexp import Sym, dumps
 
 PROP = 'C06'
 RULE = P5.RULE.replace('Non-trivial: >= 2 statements and >= 12 tokens regenerated',
+                       'about a third of the bodies additionally carry EMPTY STATEMENTS (stray semicolons after statement '
+                       'terminators incl. end if / end while / end for, doubled, on lines of their own, at the beginning of the body '
+                       'and of nested blocks); about a third of the models additionally hold 1-6 user data types NAMED LIKE a data '
+                       'type the model already has (core types, inst_ref<Object>, inst<Event>, enumerations, user-defined and '
+                       'instance-reference types; created after them), types being compared by instance; '
                        'Non-trivial: >= 2 statements, >= 3 value instances and >= 1 variable created')
 EXHAUSTIVE = {'quick': False, 'thorough': False}
 ASSUMPTIONS = P5.ASSUMPTIONS + [
@@ -234,16 +240,152 @@ def generate(ctx):
                 poison = ['body', poison]
         g = G.ProgramGen(r, 'common' if common else 'function', r.randint(1, 5), None, r.random() < 0.3)
         lay = [r.choice(LAYOUTS) for _ in homes]
-        yield {'multi': True, 'home': 'function', 'prog': g.program(), 'style': r.randint(0, 2 ** 30),
+        yield _dimensions(ctx.rng.fork('dims', 'multi', i), {
+               'multi': True, 'home': 'function', 'prog': g.program(), 'style': r.randint(0, 2 ** 30),
                'vary': r.random() < 0.5, 'homes': homes, 'layouts': lay, 'poison': poison, 'poison_home': poison_home,
                'gstats': dict(g.stats),
                'trail': [r.choice(['', ' ', '\n', '\n\n']) for _ in homes],
-               'via_model': poison is None and r.random() < 0.6}
-    for c in P5.generate(ctx, n_quick=1500, multi=False, bare=True):
-        yield c
+               'via_model': poison is None and r.random() < 0.6})
+    for i, c in enumerate(P5.generate(ctx, n_quick=1500, multi=False, bare=True)):
+        yield _dimensions(ctx.rng.fork('dims', i), c)
 
 
-text_of = P5.text_of
+# ---- two dimensions of the quantifier that the C05 generator does not vary (they are fields of the case, so a stored
+# ---- case without them reads as before):
+#   'empties'  EMPTY STATEMENTS in every position the grammar has for them: the body text gets stray semicolons after
+#              statement terminators (also after `end if;` / `end while;` / `end for;`, doubled on one line, on a line of
+#              their own, several in a row), at the very beginning of the body and at the beginning of nested blocks
+#              (after then / loop / else).  An empty statement is no statement: the population, the chains and the
+#              positions are those of the remaining statements.
+#   'shadow'   TWO DATA TYPES OF ONE NAME: the model additionally holds user data types (S_UDT over some other type, packaged
+#              like every other element) NAMED LIKE a type the model already has - core types (integer, boolean, ...),
+#              inst_ref<Object>, inst<Event>, enumerations, user-defined and instance-reference types of the base model.
+#              The type an expression has under OAL typing is the ORIGINAL data type (the core type, the declared type,
+#              the class's instance-reference type), whatever else carries its name: the types are compared by instance.
+SHADOW_POOL = ['integer', 'boolean', 'real', 'string'] * 3 + \
+              ['unique_id', 'void', 'inst_ref<Object>', 'inst_ref_set<Object>', 'inst<Event>', 'component_ref',
+               'inst<Mapping>', 'inst_ref<Mapping>', 'date', 'timestamp', 'state<State_Model>'] + \
+              [n for n, _ in G.SPEC['enums']] + [n for n, _ in G.SPEC['udts']] + [n for n, _ in G.SPEC['structs']] + \
+              [G.inst_ref(c['kl']) for c in G.SPEC['classes']] + [G.inst_ref_set(c['kl']) for c in G.SPEC['classes']]
+SHADOW_BASE = ['integer', 'boolean', 'real', 'string', 'unique_id'] + [n for n, _ in G.SPEC['enums']] + \
+              [n for n, _ in G.SPEC['udts']]
+EMPTY_AFTER = [';', ';', ' ;', '\n;', ';;', '\t;', ' ; ;', '\n\n  ;', '; /* nothing */ ;']
+
+
+def _dimensions(r, case):
+    if r.random() < 0.35:
+        case['empties'] = r.randint(1, 2 ** 30)
+    if r.random() < 0.35:
+        names = [r.choice(SHADOW_POOL) for _ in range(r.choice([1, 1, 2, 3, 5]))]
+        if r.random() < 0.2:
+            names.append(names[0])          # and a third type of the same name
+        case['shadow'] = [[n, r.choice(SHADOW_BASE)] for n in names]
+    return case
+
+
+_SEMI = None
+
+
+def with_empties(text, seed):
+    """the text with empty statements added (outside string literals, ticked phrases and comments every `;` ends a
+    statement; an empty statement may follow it, and may stand where a block begins)"""
+    global _SEMI
+    import re
+    if _SEMI is None:
+        _SEMI = re.compile(r'/\*.*?\*/|//[^\n]*|"[^"\n]*"|\'[^\'\n]*\'|[A-Za-z_][A-Za-z_0-9]*|.', re.S)
+    r = random.Random(seed)
+    p = r.choice([0.1, 0.3, 0.6])
+    out = []
+    if r.random() < 0.3:
+        out.append(r.choice([';', ';\n', '; ', ';;\n']))
+    n = 0
+    for tok in _SEMI.findall(text):
+        out.append(tok)
+        if tok == ';' and r.random() < p:
+            out.append(r.choice(EMPTY_AFTER))
+            n += 1
+        elif tok.lower() in ('then', 'loop', 'else') and r.random() < p / 2:
+            out.append(r.choice([' ;', ';', '\n;']))
+            n += 1
+    if n == 0:
+        out.append(';')         # at least one: after the last statement
+    return ''.join(out)
+
+
+def text_of(case):
+    text = P5.text_of(case)
+    if case.get('empties'):
+        text = with_empties(text, case['empties'])
+    return text
+
+
+def _shadow_types(m, case):
+    """name -> the ORIGINAL S_DT instance of the base model; then the same-named user data types of the case are added"""
+    orig = {}
+    for s_dt in m.select_many('S_DT'):
+        orig.setdefault(s_dt.Name, s_dt)
+    for c in G.SPEC['classes']:
+        # the instance-reference types of a class are the ones related to it (R123); the class Timer's share their
+        # name with a core type of the Globals package
+        o_obj = m.select_any('O_OBJ', lambda sel, kl=c['kl']: sel.Key_Lett == kl)
+        for s_irdt in _rig.xtuml.navigate_many(o_obj).S_IRDT[123]():
+            orig[G.inst_ref_set(c['kl']) if s_irdt.isSet else G.inst_ref(c['kl'])] = _rig.xtuml.navigate_one(s_irdt).S_DT[17]()
+    for name, base in case.get('shadow') or []:
+        s_dt = m.new('S_DT', Name=name)
+        s_udt = m.new('S_UDT')
+        _rig.xtuml.relate(s_dt, m.new('PE_PE'), 8001)
+        _rig.xtuml.relate(s_udt, s_dt, 17)
+        _rig.xtuml.relate(s_udt, orig.get(base) or orig['integer'], 18)
+    return orig
+
+
+def _translate(case, text):
+    """G.Rig.translate (without regeneration) on a model that also holds the case's same-named data types"""
+    m, homes = _rig.fresh()
+    orig = _shadow_types(m, case)
+    h = homes[case['home']]
+    h.Action_Semantics_internal = text
+    h.Suc_Pars = 1
+    try:
+        if case.get('via_model', False):
+            _rig.prebuild.prebuild_model(m)
+        else:
+            _rig.prebuild.prebuild_action(h)
+    except Exception as e:
+        if type(e) is Exception and str(e).startswith(('Unknown transient', 'Unknown identifier')):
+            raise G.OutOfDomain(str(e))
+        raise
+    return m, h, orig
+
+
+def _typed(s_dt, name, orig):
+    """is s_dt the data type `name` of the base model (the instance, not merely a type that carries the name)"""
+    return s_dt is not None and s_dt is orig.get(name)
+
+
+def _tdesc(s_dt, orig):
+    if s_dt is None:
+        return 'no data type'
+    if orig.get(s_dt.Name) is s_dt:
+        return s_dt.Name
+    return 'ANOTHER data type named %s (a user data type added to the model, not the model\'s %s)' % (s_dt.Name, s_dt.Name)
+
+
+def _prog_lists(prog, out):
+    """the number of statements of every statement list of the abstract program, in source order of the lists' beginnings"""
+    out.append(len(prog))
+    for st in prog:
+        if st[0] == 'if':
+            _prog_lists(st[2], out)
+            for _, b in st[3]:
+                _prog_lists(b, out)
+            if st[4] is not None:
+                _prog_lists(st[4], out)
+        elif st[0] == 'while':
+            _prog_lists(st[2], out)
+        elif st[0] == 'for':
+            _prog_lists(st[3], out)
+    return out
 
 # --------------------------------------------------------------------------- the parsed tree, with positions
 
@@ -283,6 +425,7 @@ class Typer(object):
         self.evdata = set()         # indices into self.params that are event data lists
         self.chains = []            # per select-related: ((line, col) of the statement, [(kl, rel, phrase)])
         self.cur_stmt = None
+        self.holes = 0
 
     def at(self, pos):
         """(line, start column, end column) of a node, computed HERE from the text and the node's character offsets
@@ -470,6 +613,11 @@ class Typer(object):
         self.owners.append(self._owner)
         for st in sl[1:]:
             pos, _ = _unwrap(st)
+            if pos is None:
+                # no statement node (an empty statement is no statement; the parser keeps none in its lists): the
+                # statements of the list are the remaining children, in their order
+                self.holes += 1
+                continue
             starts.append(self.at(pos)[:2])
             self.stmt(st)
 
@@ -586,6 +734,7 @@ def run_multi(case):
     one, many = rig.xtuml.navigate_one, rig.xtuml.navigate_many
     body = text_of(case)
     m, homes = rig.fresh()
+    orig = _shadow_types(m, case)
     hns = case['homes']
     texts = {}
     for hn, lay, trail in zip(hns, case['layouts'], case['trail']):
@@ -616,8 +765,9 @@ def run_multi(case):
 
     def fail(sig, what):
         if len(fails) < 4:
-            fails.append({'sig': sig, 'what': what + '\n--- texts by home: %r%s' % (
-                texts, '\n--- prebuilt before them in the same model, rejected: %r' % ptext if poisoned else '')})
+            fails.append({'sig': sig, 'what': what + '\n--- texts by home: %r%s%s' % (
+                texts, '\n--- prebuilt before them in the same model, rejected: %r' % ptext if poisoned else '',
+                _shadow_note(case))})
     acts = {'function': lambda h: one(h).ACT_FNB[695].ACT_ACT[698](),
             'bridge': lambda h: one(h).ACT_BRB[697].ACT_ACT[698](),
             'operation': lambda h: one(h).ACT_OPB[696].ACT_ACT[698](),
@@ -632,6 +782,10 @@ def run_multi(case):
         _, blk = _unwrap(b[1])
         _, sl = _unwrap(blk[1])
         ty.stmt_list(sl)
+        if case.get('prog') and [len(x) for x in ty.lists] != _prog_lists(case['prog'], []):
+            fail('statement-lists', 'the statement lists of the %s action hold %s statements in the parsed text, %s in the '
+                 'program the text was written from' % (hn, [len(x) for x in ty.lists], _prog_lists(case['prog'], [])))
+            continue
         act_act = acts[hn](homes[hn])
         if act_act is None:
             fail('no-action', 'the %s home has no ACT_ACT after prebuilding' % hn)
@@ -656,11 +810,10 @@ def run_multi(case):
                 continue
             exp = ty.values[(v.LineNumber, v.StartPosition, v.EndPosition)]
             s_dt = one(v).S_DT[820]()
-            tname = s_dt.Name if s_dt is not None else None
-            if exp[0] in JUDGED and exp[1] is not None and tname != exp[1]:
+            if exp[0] in JUDGED and exp[1] is not None and not _typed(s_dt, exp[1], orig):
                 fail('value-type:' + exp[0], 'in the %s action the V_VAL of the %s expression at line %s columns %s-%s is '
                      'typed %s; with the declarations of this home OAL types it %s'
-                     % (hn, exp[0], v.LineNumber, v.StartPosition, v.EndPosition, tname, exp[1]))
+                     % (hn, exp[0], v.LineNumber, v.StartPosition, v.EndPosition, _tdesc(s_dt, orig), exp[1]))
         nvar = sorted(v.Name for v in many(act_act).ACT_BLK[601].V_VAR[823]() if v.Name != 'self')
         if nvar != sorted(n for n, _ in ty.decls):
             fail('variable-count', 'the %s action declares the variables %s; its text declares %s'
@@ -670,9 +823,11 @@ def run_multi(case):
         if added:
             fail('integrity-added', 'prebuilding the actions added %d violation(s)' % added)
     return {'obs': Sym('multi'), 'd_fail': fails, 'nontrivial': nst >= 3,
-            'key': 'multi:' + hashlib.sha1(repr((sorted(texts.items()), case.get('poison'))).encode()).hexdigest()[:16],
+            'key': 'multi:' + hashlib.sha1(repr((sorted(texts.items()), case.get('poison'), case.get('shadow'))).encode()
+                                           ).hexdigest()[:16],
             'stats': dict({'multi_action_models': 1, 'multi_actions': len(hns), 'rejected_action_first': int(poisoned),
-                           'statements': nst}, **dict(('gen_' + k, v) for k, v in (case.get('gstats') or {}).items()))}
+                           'statements': nst, 'bodies_with_added_empty_statements': int(bool(case.get('empties'))),
+                           'models_with_same_named_data_types': int(bool(case.get('shadow')))}, **dict(('gen_' + k, v) for k, v in (case.get('gstats') or {}).items()))}
 
 
 def run_reject(case):
@@ -701,20 +856,24 @@ def run_impl(case):
     tree = rig.parse(text)
     enc = oal_sexp.encode(tree, positions=True)
     try:
-        m, h, _ = rig.translate(case['home'], text, case.get('via_model', False), regenerate=False)
+        m, h, orig = _translate(case, text)
     except G.OutOfDomain as e:
         return {'obs': [Sym('out-of-domain'), str(e)], 'd_fail': [], 'nontrivial': False, 'stats': {'out_of_domain': 1}}
     fails = []
 
     def fail(sig, what):
         if len(fails) < 4:
-            fails.append({'sig': sig, 'what': '%s\n--- %s home\n%s' % (what, case['home'], text)})
+            fails.append({'sig': sig, 'what': '%s\n--- %s home%s\n%s' % (what, case['home'], _shadow_note(case), text)})
 
     ty = Typer(case['home'], text)
     _, body = _unwrap(enc)
     _, blk = _unwrap(body[1])
     _, sl = _unwrap(blk[1])
     ty.stmt_list(sl)
+    # the statement lists are read off the parsed text; they are those of the program the text was written from
+    if case.get('prog') and [len(x) for x in ty.lists] != _prog_lists(case['prog'], []):
+        fail('statement-lists', 'the statement lists of the parsed text hold %s statements, those of the program the text '
+             'was written from %s' % ([len(x) for x in ty.lists], _prog_lists(case['prog'], [])))
 
     # integrity
     added = _violations(m) - _before
@@ -743,10 +902,10 @@ def run_impl(case):
         exp = ty.values.get(key)
         if exp is None:
             fail('value-position', 'a V_VAL carries line %s columns %s-%s; no expression of the source is there' % key)
-        elif key not in ty.ambiguous and exp[0] in JUDGED and exp[1] is not None and tname != exp[1]:
+        elif key not in ty.ambiguous and exp[0] in JUDGED and exp[1] is not None and not _typed(s_dt, exp[1], orig):
             fail('value-type:' + exp[0], 'the V_VAL of the %s expression at line %s columns %s-%s is typed %s; OAL types it %s'
-                 % (exp[0], key[0], key[1], key[2], tname, exp[1]))
-        elif key not in ty.ambiguous and exp[0] in KINDED and (subs != [KINDED[exp[0]]] or tname != exp[1]):
+                 % (exp[0], key[0], key[1], key[2], _tdesc(s_dt, orig), exp[1]))
+        elif key not in ty.ambiguous and exp[0] in KINDED and (subs != [KINDED[exp[0]]] or not _typed(s_dt, exp[1], orig)):
             # a member of a structured value is a V_MVL typed as the member (also when the member is NAMED length);
             # `.length` of an array variable is a V_ALV typed integer
             fail('value-type:' + exp[0], 'the %s expression at line %s columns %s-%s is a %s typed %s; it is a %s typed %s'
@@ -921,7 +1080,8 @@ def run_impl(case):
                  % (nvar, len(ty.decls), sorted(n for n, _ in ty.decls)))
     nstm = G.count_statements(case['prog'])
     stats = {'home_' + case['home']: 1, 'statements': nstm, 'values': len(vals), 'variables': len(ty.decls),
-             'parameters': npar, 'links': len(lnks)}
+             'parameters': npar, 'links': len(lnks), 'bodies_with_added_empty_statements': int(bool(case.get('empties'))),
+             'models_with_same_named_data_types': int(bool(case.get('shadow')))}
     for rule, _ in ty.values.values():
         stats['expr_' + rule] = stats.get('expr_' + rule, 0) + 1
     srt = lambda rows: sorted(rows, key=lambda r: (len(r), dumps(r)))
@@ -934,9 +1094,18 @@ def run_impl(case):
         if v_var.Name != 'self':
             s_dt = one(v_var).S_DT[848]()
             var_obs.append([v_var.Name, s_dt.Name if s_dt is not None else Sym('none')])
-    return {'obs': [val_obs, srt(stmt_obs), srt(par_obs), srt(lnk_obs), srt(evt_obs), var_obs, misses], 'd_fail': fails,
+    flat_obs = flat_pop.observe(rig.xtuml, m, stats, text, case)      # FLAT: last element of the observation
+    return {'obs': [val_obs, srt(stmt_obs), srt(par_obs), srt(lnk_obs), srt(evt_obs), var_obs, misses, flat_obs], 'd_fail': fails,
             'nontrivial': nstm >= 2 and len(vals) >= 3 and len(ty.decls) >= 1,
-            'key': case['home'] + ':' + hashlib.sha1(text.encode()).hexdigest()[:16], 'stats': stats}
+            'key': case['home'] + ':' + hashlib.sha1((text + repr(case.get('shadow') or '')).encode()).hexdigest()[:16],
+            'stats': stats}
+
+
+def _shadow_note(case):
+    if not case.get('shadow'):
+        return ''
+    return '\n--- the model also holds user data types named like types it already has: %s' % ', '.join(
+        '%s (over %s)' % (n, b) for n, b in case['shadow'])
 
 
 def _where(ids, starts, x):
@@ -974,7 +1143,19 @@ def model_obs(case, ans):
             rows.append([cls, sorted(set((int(r), str(k)) for r, k in req)), sorted(set((int(r), str(k)) for r, k in single)),
                          sorted(sorted(str(a) for a in key) for key in ids)])
         return [[c, [list(x) for x in r], [list(x) for x in s], i] for c, r, s, i in sorted(rows)]
-    return ans + [[]]       # no instance without a recipe
+    return ans[:-1] + [[]] + [flat_pop.model_obs(ans[-1], case)]       # no instance without a recipe; FLAT: the model's dump last
 
 
-shrink_candidates = P5.shrink_candidates
+def shrink_candidates(case):
+    for c in P5.shrink_candidates(case):
+        yield c
+    for k in ('empties', 'shadow'):
+        if case.get(k):
+            c = dict(case)
+            del c[k]
+            yield c
+    if len(case.get('shadow') or []) > 1:
+        for i in range(len(case['shadow'])):
+            c = dict(case)
+            c['shadow'] = case['shadow'][:i] + case['shadow'][i + 1:]
+            yield c
